@@ -18,15 +18,21 @@ CONSTANTS
   MaxPeer,     \* the peer sends at most this many items, all before A's first call (the transport
                \* buffers them, so their timing relative to A's calls is irrelevant in a sequential history)
   MaxOps,      \* number of calls A makes
-  DeleteOnMatch  \* TRUE: a matched request is forgotten (the property); FALSE: named deviation "lookup without delete"
+  DeleteOnMatch, \* TRUE: a matched request is forgotten (the property); FALSE: named deviation "lookup without delete"
+  WaitDecodes    \* TRUE: a typed packet wait decodes every message it passes over (the property: a skipped _result is matched
+                 \* exactly once, an unsolicited one fails the wait); FALSE: named deviation "wait skips undecoded": waiting
+                 \* for a control packet type, messages of another message type are dropped without being decoded
 
 VARIABLES pending,   \* set of <<tid, name>>: requests sent and not yet answered
           inbox,     \* items sent by the peer and not yet consumed by A
           hist,      \* the behaviour so far, with the expected outcome of every step
-          reg, matched  \* per tid: how often registered / matched (for MatchOnce)
-vars == <<pending, inbox, hist, reg, matched>>
+          reg, matched, \* per tid: how often registered / matched (for MatchOnce)
+          seen, refused \* per tid: responses taken from the stream by a packet-level call (ReadMessage+DecodeMessage,
+                        \* ExpectPacket) / of those, the ones answered with an error (for EveryResponseJudged)
+vars == <<pending, inbox, hist, reg, matched, seen, refused>>
 
-Init == pending = {} /\ inbox = <<>> /\ hist = <<>> /\ reg = [t \in Tids |-> 0] /\ matched = [t \in Tids |-> 0]
+Init == /\ pending = {} /\ inbox = <<>> /\ hist = <<>> /\ reg = [t \in Tids |-> 0] /\ matched = [t \in Tids |-> 0]
+        /\ seen = [t \in Tids |-> 0] /\ refused = [t \in Tids |-> 0]
 
 NameOf(pend, tid) == IF \E x \in pend : x[1] = tid THEN (CHOOSE x \in pend : x[1] = tid)[2] ELSE "none"
 IsResult(p) == p.k \in {"connectRes", "createStreamRes"}
@@ -48,7 +54,7 @@ ASend(p) ==
   /\ pending' = IF Registers(p) THEN {x \in pending : x[1] # p.tid} \cup {<<p.tid, ReqName(p)>>} ELSE pending
   /\ reg' = IF Registers(p) THEN [reg EXCEPT ![p.tid] = @ + 1] ELSE reg
   /\ hist' = Append(hist, [op |-> "send", p |-> p, pending |-> pending'])
-  /\ UNCHANGED <<inbox, matched>>
+  /\ UNCHANGED <<inbox, matched, seen, refused>>
 
 PSend(it) ==
   /\ it \in PeerItems
@@ -56,9 +62,12 @@ PSend(it) ==
   /\ \A k \in 1..Len(hist) : hist[k].op = "peer"
   /\ Len(hist) < MaxPeer
   /\ hist' = Append(hist, [op |-> "peer", it |-> it])
-  /\ UNCHANGED <<pending, reg, matched>>
+  /\ UNCHANGED <<pending, reg, matched, seen, refused>>
 
 Bump(p, out) == IF IsResult(p) /\ out # "error" THEN [matched EXCEPT ![p.tid] = @ + 1] ELSE matched
+Bump2(mt, p, out) == IF IsResult(p) /\ out # "error" THEN [mt EXCEPT ![p.tid] = @ + 1] ELSE mt
+See(f, p)    == IF IsResult(p) THEN [f EXCEPT ![p.tid] = @ + 1] ELSE f
+Refuse(f, p, out) == IF IsResult(p) /\ out = "error" THEN [f EXCEPT ![p.tid] = @ + 1] ELSE f
 
 \* ReadMessage + DecodeMessage of the next packet
 ARecv ==
@@ -67,6 +76,7 @@ ARecv ==
          d == DecodePkt(p, pending)
      IN /\ pending' = d[2]
         /\ matched' = Bump(p, d[1])
+        /\ seen' = See(seen, p) /\ refused' = Refuse(refused, p, d[1])
         /\ hist' = Append(hist, [op |-> "recv", out |-> d[1], pending |-> d[2]])
   /\ inbox' = Tail(inbox)
   /\ UNCHANGED reg
@@ -81,28 +91,36 @@ ASendInline(p, it) ==
      IN /\ pending' = d[2]
         /\ reg' = [reg EXCEPT ![p.tid] = @ + 1]
         /\ matched' = Bump(it.p, d[1])
+        /\ seen' = See(seen, it.p) /\ refused' = Refuse(refused, it.p, d[1])
         /\ hist' = Append(hist, [op |-> "send_inline", p |-> p, it |-> it, out |-> d[1], pending |-> d[2]])
   /\ UNCHANGED inbox
 
-\* ExpectPacket(kind): decode everything on the way; stop at the first packet of that kind or at the first error
-RECURSIVE Scan(_, _, _, _, _)
-Scan(inb, pend, mt, kind, n) ==
-  IF inb = <<>> THEN [res |-> "blocked", n |-> n, pending |-> pend, matched |-> mt]
-  ELSE IF Head(inb).i # "pkt" THEN [res |-> "media", n |-> n, pending |-> pend, matched |-> mt]
-  ELSE LET p == Head(inb).p
-           d == DecodePkt(p, pend)
-           mt2 == IF IsResult(p) /\ d[1] # "error" THEN [mt EXCEPT ![p.tid] = @ + 1] ELSE mt
-       IN IF d[1] = "error" THEN [res |-> "error", n |-> n + 1, pending |-> d[2], matched |-> mt2]
-          ELSE IF d[1] = kind THEN [res |-> "ok", n |-> n + 1, pending |-> d[2], matched |-> mt2, p |-> p]
-          ELSE Scan(Tail(inb), d[2], mt2, kind, n + 1)
+\* ExpectPacket(kind): decode everything on the way; stop at the first packet of that kind or at the first error.
+\* c = [pending, matched, seen, refused] as the wait proceeds.
+ControlKinds == {"SetChunkSize", "UserControl", "WindowAcknowledgementSize", "SetPeerBandwidth"}
+MsgTypeOfKind(kind) == CASE kind = "SetChunkSize" -> 1 [] kind = "UserControl" -> 4 [] kind = "WindowAcknowledgementSize" -> 5
+                         [] kind = "SetPeerBandwidth" -> 6 [] OTHER -> 20
+\* the deviation: this message is passed over without being looked at
+SkippedUndecoded(p, kind) == ~WaitDecodes /\ kind \in ControlKinds /\ MsgType(p) # MsgTypeOfKind(kind)
+RECURSIVE Scan(_, _, _, _)
+Scan(inb, c, kind, n) ==
+  IF inb = <<>> THEN [res |-> "blocked", n |-> n, c |-> c]
+  ELSE IF Head(inb).i # "pkt" THEN [res |-> "media", n |-> n, c |-> c]
+  ELSE LET p == Head(inb).p IN
+       IF SkippedUndecoded(p, kind) THEN Scan(Tail(inb), [c EXCEPT !.seen = See(@, p)], kind, n + 1)
+       ELSE LET d == DecodePkt(p, c.pending)
+                c2 == [pending |-> d[2], matched |-> Bump2(c.matched, p, d[1]), seen |-> See(c.seen, p), refused |-> Refuse(c.refused, p, d[1])]
+            IN IF d[1] = "error" THEN [res |-> "error", n |-> n + 1, c |-> c2]
+               ELSE IF d[1] = kind THEN [res |-> "ok", n |-> n + 1, c |-> c2, p |-> p]
+               ELSE Scan(Tail(inb), c2, kind, n + 1)
 
 AExpectPkt(kind) ==
   /\ kind \in WaitKinds
-  /\ LET s == Scan(inbox, pending, matched, kind, 0) IN
+  /\ LET s == Scan(inbox, [pending |-> pending, matched |-> matched, seen |-> seen, refused |-> refused], kind, 0) IN
      /\ s.res \in {"ok", "error"}        \* otherwise the call would block / meets media, outside the property
-     /\ pending' = s.pending /\ matched' = s.matched
+     /\ pending' = s.c.pending /\ matched' = s.c.matched /\ seen' = s.c.seen /\ refused' = s.c.refused
      /\ inbox' = SubSeq(inbox, s.n + 1, Len(inbox))
-     /\ hist' = Append(hist, [op |-> "expectpkt", kind |-> kind, out |-> s.res, consumed |-> s.n, pending |-> s.pending,
+     /\ hist' = Append(hist, [op |-> "expectpkt", kind |-> kind, out |-> s.res, consumed |-> s.n, pending |-> s.c.pending,
                               tid |-> IF s.res = "ok" /\ IsResult(s.p) THEN s.p.tid ELSE <<>>])
   /\ UNCHANGED reg
 
@@ -114,7 +132,7 @@ AExpectMsg(ty) ==
        /\ TypeOfItem(inbox[k]) = ty /\ \A j \in 1..(k - 1) : TypeOfItem(inbox[j]) # ty
        /\ inbox' = SubSeq(inbox, k + 1, Len(inbox))
        /\ hist' = Append(hist, [op |-> "expectmsg", type |-> ty, consumed |-> k, it |-> inbox[k], pending |-> pending])
-  /\ UNCHANGED <<pending, reg, matched>>
+  /\ UNCHANGED <<pending, reg, matched, seen, refused>>
 
 NOps == Cardinality({k \in 1..Len(hist) : hist[k].op # "peer"})
 Next == /\ NOps < MaxOps
@@ -128,6 +146,10 @@ Spec == Init /\ [][Next]_vars
 
 \* every registered request is matched by at most one response
 MatchOnce == \A t \in Tids : matched[t] <= reg[t]
+\* every response a packet-level call took from the stream was either matched to its request or answered with an error:
+\* none is passed over unjudged (its request would stay outstanding and a later duplicate would be accepted; an
+\* unsolicited one would go unnoticed)
+EveryResponseJudged == \A t \in Tids : seen[t] = matched[t] + refused[t]
 \* at most one remembered request per transaction id
 OnePerTid == \A x, y \in pending : x[1] = y[1] => x = y
 Done == NOps = MaxOps
